@@ -145,16 +145,7 @@ func init() {
 		},
 		pk + "verifGID": func(r *Run, fr *frame, a []Value) Value { return r.ctx.Const(64, uint64(r.sched.cur.id)) },
 		pk + "verifObserve": func(r *Run, fr *frame, a []Value) Value {
-			s := a[0].(Str).s + "="
-			if t, ok := a[1].(*Term); ok && r.model != nil {
-				m := *r.model
-				m.Total = true
-				v, _ := m.Eval(t)
-				s += fmt.Sprint(v)
-			} else {
-				s += r.show(a[1])
-			}
-			r.res.Observations = append(r.res.Observations, s)
+			r.res.Observations = append(r.res.Observations, a[0].(Str).s+"="+r.observeFmt(a[1]))
 			return nil
 		},
 		pk + "verifUnsupported": func(r *Run, fr *frame, a []Value) Value {
@@ -932,4 +923,64 @@ func inParseAddr(r *Run, fr *frame, a []Value) Value {
 	}
 	r.unsupported("netip.ParseAddr of non-addr string")
 	return nil
+}
+
+// observeFmt renders an observed value canonically (same format as the native twin).
+func (r *Run) observeFmt(v Value) string {
+	val := func(t *Term) (uint64, bool) {
+		if t.IsConst() {
+			return t.c, true
+		}
+		if r.model != nil {
+			m := *r.model
+			m.Total = true
+			x, _ := m.Eval(t)
+			return x, true
+		}
+		return 0, false
+	}
+	switch x := v.(type) {
+	case Iface:
+		if x.t == nil {
+			return "nil"
+		}
+		if t, ok := x.v.(*Term); ok {
+			c, _ := val(t)
+			if t.w == 0 {
+				if c != 0 {
+					return "true"
+				}
+				return "false"
+			}
+			if _, signed, _ := basicWidth(x.t); signed {
+				return fmt.Sprint(sext64(c, t.w))
+			}
+			return fmt.Sprint(c)
+		}
+		return r.observeFmt(x.v)
+	case *Term:
+		c, _ := val(x)
+		return fmt.Sprint(c)
+	case Str:
+		if x.sym {
+			return "<symbolic string>"
+		}
+		return x.s
+	case SliceVal:
+		if x.slot == nil {
+			return "hex:"
+		}
+		n := r.concreteInt(x.len, "observe length")
+		s := "hex:"
+		for i := 0; i < n; i++ {
+			e, ok := r.elemAt(x, r.ctx.Const(64, uint64(i))).(*Term)
+			if !ok {
+				return "<non-scalar slice>"
+			}
+			c, _ := val(e)
+			s += fmt.Sprintf("%02x", c)
+		}
+		return s
+	}
+	return r.show(v)
 }
